@@ -50,7 +50,7 @@ def run_parsers(data, case, allowed_events, label, pos, expected_kind):
         if integ == "generic":
             allowed = norm_events(allowed_events)
         else:
-            allowed = norm_events([e if e[0] == "prefix" else [T.rdflib_canon(t) for t in e] for e in allowed_events])
+            allowed = norm_events(allowed_events)
         items, exc = pyj.parse_flat_partial(data, integ)
         items = norm_events(items)
         if exc is None:
